@@ -380,6 +380,19 @@ def scenarios_for(pname, p, tier, seed, exe=None):
 
 # ----------------------------------------------------------------------------- running the pool
 
+# API forms the harness probes beyond the basic ones: a form that is declared but does not compile / link is a finding of the
+# property that talks about it (every harness build failure is also a C19 finding through the feature matrix)
+API_FORMS = [
+    ("C10", re.compile(r"PlanT<.*>::(first|last)\(\)"), "PlanT::first() / last() (mutable plan) are declared but cannot be compiled / linked: "
+     "first()/last() are not available consistently with iteration"),
+]
+
+
+def _error_lines(blog, limit=12):
+    keep = [ln for ln in blog.splitlines() if "error" in ln or "undefined reference" in ln]
+    return "\n".join(ln[:600] for ln in keep[:limit])
+
+
 def pool_key(tier, seed, names):
     return vlib.sha(vlib.repo_hash(), vlib.harness_hash(), vlib.spec_hash(), tier, str(seed), ",".join(sorted(names)),
                     vlib.file_hash([os.path.abspath(__file__)]))
@@ -404,7 +417,13 @@ def run_pool(tier, seed, names=None, force=False):
     jobs = []
     for n in names:
         exe, blog = built[n]
-        pr = {"flags": vlib.profile_flags(profs[n]), "built": exe is not None, "build_log": blog[-2000:] if exe is None else "", "runs": {}}
+        compat = exe is not None and blog.startswith("COMPAT-FALLBACK")
+        pr = {"flags": vlib.profile_flags(profs[n]), "built": exe is not None, "compat": compat,
+              "build_log": blog[-2000:] if exe is None else (_error_lines(blog) if compat else ""), "runs": {}, "api_findings": []}
+        if compat:
+            for p_, rx, what in API_FORMS:
+                if rx.search(pr["build_log"]):
+                    pr["api_findings"].append([p_, what])
         res["profiles"][n] = pr
         if exe is not None:
             jobs.append((n, exe, None))
